@@ -232,11 +232,25 @@ def rnd_val(rng, lo=-5.0, hi=5.0):
 def rnd_df(rng):
     return rng.choice([math.inf, math.inf, 1.0, 1.5, 4.0, 7.0, 30.0, 1e5, 1e5 + 1])
 
-def gen_program(rng, ctx_id, size=None, malformed=False):
+PROFILES = {
+    #            un    bin   result corr  read  sens  cov
+    'mix':     (0.30, 0.35, 0.07, 0.04, 0.10, 0.07, 0.07),
+    'value':   (0.38, 0.42, 0.05, 0.02, 0.09, 0.02, 0.02),
+    'sens':    (0.28, 0.34, 0.04, 0.02, 0.04, 0.26, 0.02),
+    'cov':     (0.18, 0.30, 0.04, 0.12, 0.12, 0.04, 0.20),
+    'df':      (0.15, 0.33, 0.08, 0.08, 0.30, 0.03, 0.03),
+    'result':  (0.20, 0.30, 0.25, 0.03, 0.10, 0.09, 0.03),
+    'history': (0.15, 0.25, 0.08, 0.12, 0.28, 0.06, 0.06),
+}
+
+def gen_program(rng, ctx_id, size=None, malformed=False, profile='mix'):
     """build one random program by executing it: returns the closed KSession"""
     s = KSession(ctx_id)
+    s.profile = profile
     UR = s.lib.UncertainReal
-    size = size or rng.randint(6, 28)
+    size = size or rng.randint(8, 30)
+    W = PROFILES[profile]
+    cum = [sum(W[:i + 1]) / sum(W) for i in range(len(W))]
     def reals():
         return [i for i, o in enumerate(s.slots) if isinstance(o, UR)]
     # declarations
@@ -274,7 +288,7 @@ def gen_program(rng, ctx_id, size=None, malformed=False):
         if not rs: break
         c = rng.random()
         a = rng.choice(rs); xa = s.slots[a]._x
-        if c < 0.30:
+        if c < cum[0]:
             f = rng.choice(UNOPS)
             # mostly stay inside the domain
             if not malformed or rng.random() < 0.7:
@@ -285,7 +299,7 @@ def gen_program(rng, ctx_id, size=None, malformed=False):
                 if f in ('exp', 'sinh', 'cosh') and abs(xa) > 50: f = 'tanh'
                 if f == 'magnitude' and xa == 0: f = 'pos'
             s.un(f, a)
-        elif c < 0.65:
+        elif c < cum[1]:
             f = rng.choice(BINOPS)
             k = rng.random()
             if k < 0.55:
@@ -304,13 +318,13 @@ def gen_program(rng, ctx_id, size=None, malformed=False):
                 elif abs(s._x(B)) > 6: f = 'add'
             if f == 'div' and s._x(B) == 0 and rng.random() < 0.8: f = 'sub'
             s.bin(f, A, B)
-        elif c < 0.72:
+        elif c < cum[2]:
             s.result(a, label=rng.choice([None, rng.randint(10, 19)]))
-        elif c < 0.76:
+        elif c < cum[3]:
             try_corr()
-        elif c < 0.86:
+        elif c < cum[4]:
             s.read(rng.choice(['x', 'u', 'v', 'df', 'df', 'u']), a)
-        elif c < 0.93:
+        elif c < cum[5]:
             b = rng.choice(rs)
             rng.choice([s.sens, s.ucomp])(a, b)
         else:
@@ -318,11 +332,50 @@ def gen_program(rng, ctx_id, size=None, malformed=False):
             rng.choice([s.get_cov, s.get_corr])(a, b)
     # final sweep of reads on a few objects
     rs = reals()
-    for a in rng.sample(rs, min(len(rs), 4)):
+    for a in rng.sample(rs, min(len(rs), 3)):
         s.read('u', a); s.read('df', a)
+        for b in rng.sample(rs, min(len(rs), 2)):
+            if s.slots[b].is_elementary or s.slots[b].is_intermediate:
+                s.ucomp(a, b)
     if len(rs) >= 2:
         a, b = rng.sample(rs, 2)
         s.get_cov(a, b); s.get_cov(b, a)
     s.heap_ok = s.check_heap()
     s.close()
     return s
+
+def run_kernel_corr(rng, nprog, profile, name, malformed_every=7, per_file=40):
+    """generate nprog programs, evaluate the FNum model on them inside coqc, compare.
+    Returns the dict check.py expects from a correspondence suite."""
+    import collections, hashlib
+    sessions = [gen_program(rng, 1 + i, malformed=(i % malformed_every == malformed_every - 1), profile=profile)
+                for i in range(nprog)]
+    d = scratch('corr_' + name)
+    files = emit_cases(d, sessions, per_file=per_file)
+    res = run_coqc_many([f for f, _ in files])
+    mism = []
+    for f, idx in files:
+        rc, out = res[f]
+        rep = parse_report(out)
+        if rep is None or len(rep) != len(idx):
+            mism.append({'kind': 'coqc-failed', 'file': f, 'rc': rc, 'output': out[-1500:]})
+            continue
+        for i, r in zip(idx, rep):
+            if r != -1:
+                s = sessions[i]
+                mism.append({'kind': 'model-vs-implementation', 'program': s.pyops[:r + 1], 'step': r,
+                             'ctx': s.ctx_id, 'implementation_output': s.outs[r][:600] if r < len(s.outs) else None})
+    for i, s in enumerate(sessions):
+        if not s.heap_ok:
+            mism.append({'kind': 'vector-heap-corrupted', 'program': s.pyops, 'ctx': s.ctx_id})
+    stats = collections.Counter()
+    for s in sessions: stats.update(s.stats)
+    distinct = len(set(hashlib.sha1(repr(s.pyops).encode()).hexdigest() for s in sessions if len(s.ops) > 3))
+    shutil.rmtree(d, ignore_errors=True)
+    return {'programs': len(sessions), 'steps': sum(len(s.ops) for s in sessions), 'mismatches': mism,
+            'distinct': distinct, 'distribution': dict(stats),
+            'rule': 'random kernel programs (profile %s): declarations (independent / dependent / ensembles / constants), '
+                    'correlations, operators and functions over uncertain and plain operands with sharing, result(), reads; '
+                    'every step output compared bit for bit with the FNum model; a program is non-trivial if it has more than 3 steps; '
+                    'distinct by hash of the operation list' % profile,
+            'samples': [{'program': s.pyops[:12]} for s in sessions[:2]]}
